@@ -137,4 +137,68 @@ def cstep [Mul α] (weights : List α) (f : CFit α) : COp α → CFit α
 def crun [Mul α] (weights : List α) (f : CFit α) (ops : List (COp α)) : CFit α :=
   ops.foldl (cstep weights) f
 
+/-! ### Clones that are *rebuilt* instead of copied, and binary64 replay
+
+`deepcopy` above hands the weighted values over as they are (base.py `__deepcopy__`, and pickling / `copy.copy`
+through the instance `__dict__`).  The two definitions below are NOT the library: they are the two other ways a
+clone could be produced, through the public `values` — written down so that `C01.clone_no_recompute` can say
+exactly when such a clone is still the original, and `C01.reclone_*_witness` that under binary64 arithmetic it
+is not.  (Seeded change C01-r7m2 is `recloneInv`.) -/
+
+/-- a clone rebuilt by `cls(self.values)`: every weighted value becomes `(x / w) * w`. -/
+def reclone [Mul α] [Div α] (weights : List α) (f : Fit α) : Option (Fit α) :=
+  setValues weights (getValues weights f)
+
+/-- `values` computed with cached inverse weights, `x * (1 / w)`. -/
+def getValuesInv [Mul α] (invWeights : List α) (f : Fit α) : List α :=
+  List.zipWith (· * ·) f.wvalues invWeights
+
+/-- a clone rebuilt through `getValuesInv`: every weighted value becomes `(x * (1 / w)) * w`. -/
+def recloneInv [Mul α] [Div α] (one : α) (weights : List α) (f : Fit α) : Option (Fit α) :=
+  setValues weights (getValuesInv (weights.map (one / ·)) f)
+
+/-- Round to nearest, ties to even, of the positive rational `n / d` to 53 significant bits: what IEEE-754
+binary64 does to an exact result as long as that result is in the normal range (no exponent bounds here, so no
+overflow and no gradual underflow; the correspondence stream stays inside the normal range and the driver
+cross-checks every answer against the machine's own `Float` arithmetic). -/
+def rnPos (n d : Nat) : Rat :=
+  if n = 0 ∨ d = 0 then 0 else
+  let s := 56 + Nat.log2 d                 -- n * 2^s / d ≥ 2^55
+  let N := n * 2 ^ s
+  let extra := Nat.log2 (N / d) + 1 - 53   -- bits of the integer quotient beyond 53
+  let D := d * 2 ^ extra
+  let m := N / D                           -- 2^52 ≤ m < 2^53
+  let r := N % D
+  let m' := if D < 2 * r ∨ (2 * r = D ∧ m % 2 = 1) then m + 1 else m
+  mkRat ((m' * 2 ^ extra : Nat) : Int) (2 ^ s)
+
+def rn64 (q : Rat) : Rat :=
+  if q.num < 0 then - rnPos q.num.natAbs q.den else rnPos q.num.natAbs q.den
+
+/-- A binary64 number in the normal range (or zero), seen as the rational it is; `*` and `/` are the exact
+operation followed by one rounding, as IEEE-754 prescribes.  Division by zero is left as Lean's `x / 0 = 0`
+(weights are non-zero). -/
+structure R64 where
+  q : Rat
+deriving DecidableEq, Repr
+
+instance : Mul R64 := ⟨fun a b => ⟨rn64 (a.q * b.q)⟩⟩
+instance : Div R64 := ⟨fun a b => ⟨rn64 (a.q / b.q)⟩⟩
+instance : LT R64 := ⟨fun a b => a.q < b.q⟩
+instance : LE R64 := ⟨fun a b => a.q ≤ b.q⟩
+instance : DecidableLT R64 := fun a b => inferInstanceAs (Decidable (a.q < b.q))
+instance : DecidableLE R64 := fun a b => inferInstanceAs (Decidable (a.q ≤ b.q))
+
+/-- the rational a (finite) `Float` is, from its bit pattern -/
+def floatToRat (x : Float) : Rat :=
+  let b : Nat := x.toBits.toNat
+  let neg : Bool := b / 2 ^ 63 == 1
+  let e : Nat := (b / 2 ^ 52) % 2 ^ 11
+  let m : Nat := b % 2 ^ 52
+  let big : Nat := (2 ^ 52 + m) * 2 ^ (e - 1075)
+  let mag : Rat := if e = 0 then mkRat (Int.ofNat m) (2 ^ 1074)
+    else if e ≥ 1075 then mkRat (Int.ofNat big) 1
+    else mkRat (Int.ofNat (2 ^ 52 + m)) (2 ^ (1075 - e))
+  if neg then - mag else mag
+
 end Fitness
